@@ -180,17 +180,20 @@ def c13_probes(dw):
         *w[0].unlock().borrow_mut() = Some(child);''', check="root.x[0].borrow().is_some()"))
         elif kind == "index":
             idx = None
+            idx_name = "key"
             t = text.replace(" ", "")
             holder = ("x: Gc<'gc, Vec<Slot<'gc>>>", "x: Gc::new(mc, vec![RefLock::new(None)])", "root.x[0].borrow().is_some()")
             pre = "Gc::write(mc, root.x)"
             externs = ()
             if recv == "slice":
                 pre = "Gc::write(mc, root.x).as_deref()"
-                for pat, ix in (("IndexWrite<usize>", "[0]"), ("IndexWrite<Range<usize>>", "[0..1][0]"),
-                                ("IndexWrite<RangeFrom<usize>>", "[0..][0]"), ("IndexWrite<RangeInclusive<usize>>", "[0..=0][0]"),
-                                ("IndexWrite<RangeTo<usize>>", "[..1][0]"), ("IndexWrite<RangeToInclusive<usize>>", "[..=0][0]")):
+                for pat, ix, nm in (("IndexWrite<usize>", "[0]", "usize"), ("IndexWrite<Range<usize>>", "[0..1][0]", "range"),
+                                    ("IndexWrite<RangeFrom<usize>>", "[0..][0]", "rangefrom"),
+                                    ("IndexWrite<RangeInclusive<usize>>", "[0..=0][0]", "rangeinclusive"),
+                                    ("IndexWrite<RangeTo<usize>>", "[..1][0]", "rangeto"),
+                                    ("IndexWrite<RangeToInclusive<usize>>", "[..=0][0]", "rangetoinclusive")):
                     if pat in t:
-                        idx = ix
+                        idx, idx_name = ix, nm
             elif recv == "array":
                 holder = ("x: Gc<'gc, [Slot<'gc>; 2]>", "x: Gc::new(mc, [RefLock::new(None), RefLock::new(None)])", "root.x[1].borrow().is_some()")
                 idx = "[1]"
@@ -216,7 +219,9 @@ def c13_probes(dw):
                 externs = ("hashbrown",)
             if idx is None:
                 continue  # unknown receiver / index type: judged by the table theorem only
-            name = _slug(f"index-{recv}-{idx}")
+            if recv != "slice" and idx in ("[0]", "[1]"):
+                idx_name = "usize"
+            name = _slug(f"index-{recv}-{idx_name}")
             add(name + "-use", e, "use", _black_parent(holder[0], holder[1],
                 body=f"        *{pre}{idx}.unlock().borrow_mut() = Some(child);", check=holder[2]), run=True, externs=externs)
             add(name + "-misuse", e, "misuse", _black_parent(holder[0], holder[1],
@@ -226,11 +231,11 @@ def c13_probes(dw):
             add("aswrite-option-use", e, "use", _black_parent(
                 "x: Gc<'gc, Option<Slot<'gc>>>", "x: Gc::new(mc, Some(RefLock::new(None)))",
                 body="        *Gc::write(mc, root.x).as_write().unwrap().unlock().borrow_mut() = Some(child);",
-                check="root.x.as_ref().unwrap().borrow().is_some()"), run=True)
+                check="(*root.x).as_ref().unwrap().borrow().is_some()"), run=True)
             add("aswrite-option-misuse", e, "misuse", _black_parent(
                 "x: Gc<'gc, Option<Slot<'gc>>>", "x: Gc::new(mc, Some(RefLock::new(None)))",
                 body="        *root.x.as_ref().as_write().unwrap().unlock().borrow_mut() = Some(child); // Option has no as_write",
-                check="root.x.as_ref().unwrap().borrow().is_some()"))
+                check="(*root.x).as_ref().unwrap().borrow().is_some()"))
         elif kind == "asWrite" and recv == "result":
             add("aswrite-result-use", e, "use", _black_parent(
                 "x: Gc<'gc, Result<Slot<'gc>, Slot<'gc>>>", "x: Gc::new(mc, Err(RefLock::new(None)))",
